@@ -56,10 +56,40 @@ def cp_shape(rnd, w, signed=False, allow_overlap=False):
                 b["n"] = rnd.randint(1, 5) if (kind == "arrayn" or rnd.random() < 0.5) else 0
             bins.append(b)
         cp["bins"] = bins
-        # ignore/illegal may also cut into the declared ranges
-        if excl and rnd.random() < 0.6:
+        # ignore/illegal may also cut into the declared ranges: at the low end, the high end, the interior, or across an end
+        if rnd.random() < 0.7:
             r = rnd.choice(rnd.choice(decls))
-            excl = excl + [[[r[0], r[0]]]]
+            # ("all" only when another declaration keeps the coverpoint non-empty: a coverpoint without bins is an open zone)
+            cut = rnd.choice(["lo", "hi", "mid", "over_hi", "under_lo"] + (["all"] if len(decls) >= 2 else []))
+            if r[0] == r[1] and len(decls) < 2:
+                cut = "none"
+            c = {"lo": [r[0], r[0]], "hi": [r[1], r[1]], "mid": [(r[0] + r[1]) // 2, (r[0] + r[1] + 1) // 2],
+                 "over_hi": [r[1], min(hi, r[1] + 2)], "under_lo": [max(lo, r[0] - 2), r[0]], "all": [r[0], r[1]],
+                 "none": None}[cut]
+            if c is not None and not (len(decls) < 2 and c[0] <= r[0] and c[1] >= r[1]):
+                excl = excl + [[c]]
+    if kind == "auto" and rnd.random() < 0.6:
+        c = rnd.choice([[hi, hi], [lo, lo], [hi - 1, hi], [(lo + hi) // 2, (lo + hi) // 2]])
+        excl = excl + [[c]]
+    if kind != "auto":
+        pass
+    # a coverpoint left without any bin is an open zone (coverage of nothing): keep at least one value of every
+    # declaration's neighbourhood by dropping exclusions that would empty the coverpoint
+    def remaining(ex):
+        gone = set()
+        for rs in ex:
+            for r in rs:
+                gone.update(range(r[0], r[1] + 1))
+        if "bins" in cp:
+            vals = set()
+            for b in cp["bins"]:
+                for r in b["ranges"]:
+                    vals.update(range(r[0], r[1] + 1))
+        else:
+            vals = set(range(lo, hi + 1))
+        return vals - gone
+    while excl and not remaining(excl):
+        excl = excl[:-1]
     if excl:
         half = len(excl) // 2 if rnd.random() < 0.5 else len(excl)
         ign = [{"name": "ig%d" % i, "ranges": rs} for i, rs in enumerate(excl[:half])]
